@@ -2,14 +2,10 @@
    observed build graph as numbers and asks the verified checkers for their verdict.
    Encoding (all numbers decimal): a number list is "n,n,n"; a step is
    "id;reads;outs;ancestors"; steps are separated by "|". *)
-From MV Require Import Base.Strs Graph.Sched.
+From MV Require Import Base.Strs Graph.Sched Graph.Gen Graph.GenEntry.
 Open Scope N_scope.
 
-Fixpoint split_on (sep : char) (s : str) (cur : str) : list str :=
-  match s with
-  | [] => [rev cur]
-  | c :: r => if c =? sep then rev cur :: split_on sep r [] else split_on sep r (c :: cur)
-  end.
+(* [split_on] comes from Graph/GenEntry.v *)
 Definition nums (s : str) : list N :=
   match s with
   | [] => []
@@ -44,7 +40,10 @@ Definition first_incomplete (g : list step) (sources : list path) : str :=
   | None => []
   end.
 
+(* entry "gen": the project IR of Graph/Gen.v (wire format in Graph/GenEntry.v) -> the
+   statements and declared ancestors that the model of meson's edge logic gives it *)
 Definition run (fn : str) (args : list str) : str :=
+  if str_eqb fn (s2l "gen") then run_gen args else
   match args with
   | [gs; srcs] =>
       let g := parse_graph gs in
